@@ -269,13 +269,18 @@ NoTerAfterK(lines, ks) ==
   { i \in AtomIdxK(ks) : ~( i < Len(ks)
                             /\ ( ks[i + 1] = "TER"
                                  \/ (ks[i + 1] = "ATOM" /\ ChainOf(lines[i + 1]) = ChainOf(lines[i])) ) ) }
-TerAfterEveryChainK(lines, ks) == NoTerAfterK(lines, ks) = {}
+\* ... and a TER stands only there: it is never followed by an ATOM of the same chain id (which would
+\* split one chain in two)
+TerInsideChainK(lines, ks) ==
+  { i \in 2..(Len(ks) - 1) : ks[i] = "TER" /\ ks[i - 1] = "ATOM" /\ ks[i + 1] = "ATOM"
+                               /\ ChainOf(lines[i + 1]) = ChainOf(lines[i - 1]) }
+TerAfterEveryChainK(lines, ks) == NoTerAfterK(lines, ks) = {} /\ TerInsideChainK(lines, ks) = {}
 TerAfterEveryChain(lines) == TerAfterEveryChainK(lines, Kinds(lines))
 
 \* the defect P8 exactly: the only chains without TER are those ended by ENDMDL + MODEL
 \* (last chain of a model that is followed by another model)
 OnlyModelChangeLacksTerK(lines, ks) ==
-  /\ NoTerAfterK(lines, ks) # {}
+  /\ NoTerAfterK(lines, ks) # {} /\ TerInsideChainK(lines, ks) = {}
   /\ \A i \in NoTerAfterK(lines, ks) : i + 2 <= Len(ks) /\ ks[i + 1] = "ENDMDL" /\ ks[i + 2] = "MODEL"
 
 \* ------------------------------------------------------------------ value shapes (input domain)
